@@ -123,9 +123,11 @@ theorem moveSheet_full (s s' : St) (a b : Name) (h : moveSheet s a b = .ok s') :
                 rfl
 
 theorem setSheetName_full (s s' : St) (a b : Name) (h : setSheetName s a b = .ok s') :
-    s' = s ∨ ∃ p, validName b = true ∧ b ≠ a ∧ s.sheets.any (·.name == a) = true ∧
+    s' = s ∨ (∃ p, validName b = true ∧ b ≠ a ∧ s.sheets.any (·.name == a) = true ∧
       mapGetExact s.sheetMap a = some p ∧ (fold b = fold a ∨ ∀ sh ∈ s.sheets, fold sh.name ≠ fold b) ∧
-      s' = { s with sheets := renameList s.sheets a b, sheetMap := mapErase (mapSet s.sheetMap b p) a } := by
+      s' = { s with sheets := renameList s.sheets a b, sheetMap := mapErase (mapSet s.sheetMap b p) a,
+                    defs := adjustDefs s.defs a b }) ∨
+    (s.sheets.any (·.name == a) = false ∧ s' = { s with defs := adjustDefs s.defs a b }) := by
   unfold setSheetName at h
   split at h
   · cases h
@@ -145,7 +147,7 @@ theorem setSheetName_full (s s' : St) (a b : Name) (h : setSheetName s a b = .ok
             · cases h
             · rename_i p hget
               cases h
-              right
+              right; left
               refine ⟨p, by unfold validName; rw [hb], hab, hany, hget, ?_, rfl⟩
               simp only [fact_renameClashCheck, Bool.true_and, Bool.and_eq_true, Bool.not_eq_true',
                 not_and, Bool.not_eq_true, Option.isSome_eq_false_iff, Option.isNone_iff_eq_none] at hclash
@@ -158,7 +160,9 @@ theorem setSheetName_full (s s' : St) (a b : Name) (h : setSheetName s a b = .ok
                 rw [getSheetIndex, hb] at hn
                 simp only [fact_foldGetSheetIndex, nameEq_true] at hn
                 exact (eqFold_false_iff _ _).mp (idxOf?_none _ _ hn sh hsh)
-          · cases h; left; rfl
+          · rename_i hany
+            cases h; right; right
+            exact ⟨by simpa using hany, rfl⟩
 
 theorem copySheet_partsOnly (s s' : St) (f t : Int) (h : copySheet s f t = .ok s') : PartsOnly s s' := by
   unfold copySheet at h
@@ -240,9 +244,10 @@ theorem step_pb (s : St) (op : Op) (hi : Inv s) (hp : PB s) : PB (step s op).1 :
     simp only [step]
     split
     · rename_i s' hr
-      rcases setSheetName_full s s' a b hr with rfl | ⟨p, _, hab, hany, hget, hf, rfl⟩
+      rcases setSheetName_full s s' a b hr with rfl | ⟨p, _, hab, hany, hget, hf, rfl⟩ | ⟨_, rfl⟩
       · exact hp
-      · exact pb_rename s hi.uniq_ci hp a b p hab hany hget hf
+      · exact inv_defs_irrelevant_pb _ _ (pb_rename s hi.uniq_ci hp a b p hab hany hget hf)
+      · exact inv_defs_irrelevant_pb s _ hp
     · exact hp
   | visible n v vh =>
     simp only [step]
@@ -265,7 +270,7 @@ theorem step_pb (s : St) (op : Op) (hi : Inv s) (hp : PB s) : PB (step s op).1 :
     split
     · rename_i s' hu; exact pb_partsOnly (ungroupLoop_partsOnly _ _ _ s s' hu) hp
     · exact hp
-  | defname k sc =>
+  | defname k sc dt =>
     simp only [step]
     split
     · rename_i s' hd
@@ -506,22 +511,24 @@ theorem setSheetName_err (s : St) (hi : Inv s) (hp : PB s) (a b : Name) (e : Err
 
 @[simp] theorem fact_definedNameScopeResolved : Facts.C16.definedNameScopeResolved = true := rfl
 
-theorem setDefinedName_err (s : St) (k : Nat) (sc : Name) (e : Err) (h : setDefinedName s k sc = .error e) : ¬ Bad e := by
+theorem setDefinedName_err (s : St) (k : Nat) (sc dt : Name) (e : Err) (h : setDefinedName s k sc dt = .error e) : ¬ Bad e := by
   unfold setDefinedName at h
-  simp only [fact_definedNameScopeResolved, Bool.not_true, Bool.false_eq_true, if_false] at h
   split at h
-  · rename_i e' hs
-    cases h
-    unfold getDefinedNameScope at hs
-    split at hs
-    · cases hs
-    · split at hs
-      · rename_i e'' hg; cases hs; exact getSheetIndex_err _ _ _ hg
-      · cases hs; exact not_bad_of_ne (by decide) (by decide)
+  · cases h; exact not_bad_of_ne (by decide) (by decide)
+  · simp only [fact_definedNameScopeResolved, Bool.not_true, Bool.false_eq_true, if_false] at h
+    split at h
+    · rename_i e' hs
+      cases h
+      unfold getDefinedNameScope at hs
+      split at hs
       · cases hs
-  · split at h
-    · cases h; exact not_bad_of_ne (by decide) (by decide)
-    · cases h
+      · split at hs
+        · rename_i e'' hg; cases hs; exact getSheetIndex_err _ _ _ hg
+        · cases hs; exact not_bad_of_ne (by decide) (by decide)
+        · cases hs
+    · split at h
+      · cases h; exact not_bad_of_ne (by decide) (by decide)
+      · cases h
 
 theorem step_not_bad (s : St) (op : Op) (hi : Inv s) (hp : PB s) (e : Err) (h : (step s op).2 = some e) : ¬ Bad e := by
   cases op with
@@ -579,13 +586,13 @@ theorem step_not_bad (s : St) (op : Op) (hi : Inv s) (hp : PB s) (e : Err) (h : 
     obtain ⟨s1, hu⟩ := ungroupSheets_ok s hi hp
     rw [hu] at h
     cases h
-  | defname k sc =>
+  | defname k sc dt =>
     simp only [step] at h
     split at h
     · cases h
     · rename_i e' hn
       cases h
-      exact setDefinedName_err s _ _ _ hn
+      exact setDefinedName_err s _ _ _ _ hn
   | deldef k sc =>
     simp only [step] at h
     split at h
